@@ -143,7 +143,7 @@ func New(repo string) (*Rig, error) {
 	// its calls (pgxpool hands out the most recently released connection).
 	cctx, ccancel := context.WithTimeout(ctx, 20*time.Second)
 	defer ccancel()
-	pool, err := pgxpool.Connect(cctx, strings.Replace(pg.ConnString(), "pool_max_conns=4", "pool_max_conns=3&connect_timeout=10", 1))
+	pool, err := pgxpool.Connect(cctx, strings.Replace(pg.ConnString(), "pool_max_conns=4", "pool_max_conns=3&connect_timeout=10&pool_health_check_period=6h&pool_max_conn_lifetime=12h&pool_max_conn_idle_time=12h", 1))
 	if err != nil {
 		return nil, err
 	}
@@ -302,6 +302,11 @@ type Outcome struct {
 	RPCFaults []string // per RPC call index: "" | "fail"
 	DBFaults  []string // per DB op index: "" | "fail" | "fail-applied"
 	DBNote    string
+	// Misplaced: the message sequence of the real run departed from the dry run's before the
+	// fault's message (a different pool connection with a cold statement cache, a different
+	// iteration order of a Go map ...), so the fault did not hit the operation it was aimed at and
+	// its model-level rendering is unknown.  The run is still a valid execution for the oracle.
+	Misplaced bool
 }
 
 func armRPC(e *ethfake.Server, f *RPCFault) {
@@ -375,6 +380,7 @@ func (r *Rig) RunSync(s Syncer, header *types.Header, rf *RPCFault, df *DBFault)
 	if df != nil {
 		snap := r.PG.Store().Snapshot()
 		var ops []DBOp
+		var dryLog []pgfake.MsgLogEntry
 		for i := 0; i < 2; i++ {
 			c2, cancel := context.WithTimeout(r.Ctx, SyncTimeout)
 			if rf != nil && rf.Kind == "delay" {
@@ -383,7 +389,8 @@ func (r *Rig) RunSync(s Syncer, header *types.Header, rf *RPCFault, df *DBFault)
 			}
 			run(c2)
 			cancel()
-			ops = splitOps(r.PG.MsgLog())
+			dryLog = r.PG.MsgLog()
+			ops = splitOps(dryLog)
 			r.PG.SetStore(snap)
 		}
 		r.Eth.ResetCalls()
@@ -426,6 +433,50 @@ func (r *Rig) RunSync(s Syncer, header *types.Header, rf *RPCFault, df *DBFault)
 			}
 		}
 		out.Err, out.Panic = r.guard(func() error { return s.Sync(ctx, header) })
+		// the real run must have sent the dry run's messages up to the fault: same operations, same
+		// order (statements inside one transaction may be permuted by a map iteration)
+		if fired := r.PG.FiredFaults(); len(fired) > 0 {
+			at := fired[0].AtMsg
+			real := r.PG.MsgLog()
+			opOf := func(ops []DBOp, idx int64) int {
+				for i, o := range ops {
+					for _, m := range o.Msgs {
+						if m == idx {
+							return i
+						}
+					}
+				}
+				return -1
+			}
+			realOps := splitOps(real)
+			want := opOf(ops, at)
+			if got := opOf(realOps, at); got != want || want < 0 || ops[want].Tx != realOps[got].Tx {
+				out.Misplaced = true
+			} else {
+				for i := 0; i < want; i++ { // the operations before it are the same
+					if ops[i].Tx != realOps[i].Tx || len(ops[i].Msgs) != len(realOps[i].Msgs) || ops[i].Msgs[0] != realOps[i].Msgs[0] {
+						out.Misplaced = true
+					}
+				}
+				// inside the operation: a commit-level fault must have hit the commit
+				if m := int(at - ops[want].Msgs[0]); !out.Misplaced && m < len(realOps[want].Msgs) {
+					dk, rk := "", ""
+					if int(at) < len(dryLog) {
+						dk = dryLog[at].Kind + " " + dryLog[at].Stmt
+					}
+					if int(at) < len(real) {
+						rk = real[at].Kind + " " + real[at].Stmt
+					}
+					isCommit := func(s string) bool { return s == "Query commit" }
+					if isCommit(dk) != isCommit(rk) || (dryLog[at].Kind == "Execute") != (real[at].Kind == "Execute") {
+						out.Misplaced = true
+					}
+				}
+			}
+			if out.Misplaced {
+				out.DBNote += " (MISPLACED: the real run's message sequence differs from the dry run's)"
+			}
+		}
 		if pend := r.PG.PendingFaults(); len(pend) > 0 {
 			// the real run did not reach the message: no database fault happened
 			out.DBFaults = nil
